@@ -68,13 +68,22 @@ pub struct CrashRun {
 /// One execution: the schedule, then the closing environment. Each cut is armed in turn; when the
 /// node parks there it is dropped and rebuilt on the same database, the remaining schedule is
 /// abandoned (the process that was executing it is gone) and the closing environment starts over.
-pub fn run_with_cuts(scratch: &std::path::Path, history: &[Ev], cuts: &[Cut]) -> CrashRun {
+/// the default configuration (Mithril stake distribution only): two epochs, one round each
+pub fn msd_only_schedule() -> Vec<Ev> {
+    use Ev::*;
+    vec![
+        Tick, RegisterAll, Epoch(1), Tick, Tick, Tick, RegisterAll, SigAll(Ty::Msd), Tick, Quiesce, Tick,
+        Epoch(1), Tick, Tick, Tick, RegisterAll, SigAll(Ty::Msd), Tick, Quiesce,
+    ]
+}
+
+pub fn run_with_cuts(scratch: &std::path::Path, history: &[Ev], cuts: &[Cut], msd_only: bool) -> CrashRun {
     let dir = fresh_dir(scratch);
     let rt = tokio::runtime::Builder::new_current_thread().enable_all().build().expect("tokio runtime");
     let hist_json = serde_json::to_value(history).unwrap();
     let cuts_json = serde_json::to_value(cuts).unwrap();
     let res = rt.block_on(async {
-        let mut w = World::new(dir.clone(), 3, false).await;
+        let mut w = World::new(dir.clone(), 3, msd_only).await;
         let ctl = w.ctl.clone();
         let mut chk = Checker::new();
         let mut log = vec![];
@@ -112,7 +121,7 @@ pub fn run_with_cuts(scratch: &std::path::Path, history: &[Ev], cuts: &[Cut]) ->
                     found.push(Cut { event: i, point: p.to_string(), occurrence: o });
                 }
             }
-            let ctx = json!({"history": hist_json, "cuts": cuts_json, "step": step, "event": ev, "crashed_here": crashed, "log": log});
+            let ctx = json!({"history": hist_json, "cuts": cuts_json, "msd_only": msd_only, "step": step, "event": ev, "crashed_here": crashed, "log": log});
             if crashed {
                 crashes += 1;
                 log.push(format!("CRASH@{}#{} during {:?}", pending[0].point, pending[0].occurrence, ev));
@@ -134,11 +143,12 @@ pub fn run_with_cuts(scratch: &std::path::Path, history: &[Ev], cuts: &[Cut]) ->
         // progress: the rounds of the closing environment (a later immutable beacon, then a later
         // epoch) are certified and have their artifacts
         let tp = w.time_point().await;
-        let ctx = json!({"history": hist_json, "cuts": cuts_json, "step": "end", "log": log});
-        for entity in [
-            SignedEntityType::MithrilStakeDistribution(Epoch(*tp.epoch)),
-            SignedEntityType::CardanoDatabase(mithril_common::entities::CardanoDbBeacon::new(*tp.epoch, tp.immutable_file_number)),
-        ] {
+        let ctx = json!({"history": hist_json, "cuts": cuts_json, "msd_only": msd_only, "step": "end", "log": log});
+        let mut expected = vec![SignedEntityType::MithrilStakeDistribution(Epoch(*tp.epoch))];
+        if !msd_only {
+            expected.push(SignedEntityType::CardanoDatabase(mithril_common::entities::CardanoDbBeacon::new(*tp.epoch, tp.immutable_file_number)));
+        }
+        for entity in expected {
             if !has_certificate_and_artifact(&w, &entity).await {
                 violations.push(Violation {
                     key: "C15/no-progress-after-crash".into(),
@@ -181,7 +191,8 @@ pub fn run(ctx: &Ctx) -> ! {
         let v = mc_core::load_replay(path);
         let h: Vec<Ev> = serde_json::from_value(v["history"].clone()).expect("history");
         let cuts: Vec<Cut> = serde_json::from_value(v["cuts"].clone()).unwrap_or_default();
-        let r = run_with_cuts(&scratch, &h, &cuts);
+        let msd_only = v["msd_only"].as_bool().unwrap_or(false);
+        let r = run_with_cuts(&scratch, &h, &cuts, msd_only);
         eprintln!("replayed: {}", r.outcome);
         rep.eval();
         for v in r.violations {
@@ -194,7 +205,10 @@ pub fn run(ctx: &Ctx) -> ! {
     }
     // schedules: the base schedule, and (thorough) its 1-deviation ball
     let base = base_schedule();
-    let mut schedules = vec![base.clone()];
+    // (schedule, msd_only): the second world is the default configuration, in which the Mithril
+    // stake distribution is the only signed entity type - there an epoch without its certificate
+    // is a gap that blocks the aggregator until manual repair
+    let mut schedules: Vec<(Vec<Ev>, bool)> = vec![(base.clone(), false), (msd_only_schedule(), true)];
     let dev: Vec<Ev> = {
         use Ev::*;
         vec![Tick, Quiesce, Immutable, Epoch(1), Restart, Expire(Ty::Cdb), Sig { signer: 1, ty: Ty::Cdb, variant: crate::sys::Variant::NextBeacon }]
@@ -204,17 +218,17 @@ pub fn run(ctx: &Ctx) -> ! {
         seen.insert(serde_json::to_string(&base).unwrap());
         for h in standard_edits(&base, &dev, 7) {
             if seen.insert(serde_json::to_string(&h).unwrap()) {
-                schedules.push(h);
+                schedules.push((h, false));
             }
         }
     }
     // recording runs: which cuts exist on each schedule; also the no-crash baseline must progress
-    let recs = par_map(&schedules, ctx.threads(), |_, h| run_with_cuts(&scratch, h, &[]));
+    let recs = par_map(&schedules, ctx.threads(), |_, (h, msd_only)| run_with_cuts(&scratch, h, &[], *msd_only));
     let mut jobs: Vec<(usize, Vec<Cut>)> = vec![];
     for (si, r) in recs.iter().enumerate() {
         rep.eval();
         rep.outcome(&format!("baseline:{}", r.outcome));
-        if si == 0 && !r.violations.is_empty() {
+        if si <= 1 && !r.violations.is_empty() {
             rep.machinery_error(format!(
                 "the base schedule does not satisfy the oracle without any crash: {}",
                 r.violations.iter().map(|v| v.key.clone()).collect::<Vec<_>>().join(",")
@@ -243,7 +257,7 @@ pub fn run(ctx: &Ctx) -> ! {
     }
     rep.extra("schedules", json!(schedules.len()));
     rep.extra("cuts_on_base_schedule", json!(recs[0].cuts.iter().map(|c| format!("{}#{}@{}", c.point, c.occurrence, c.event)).collect::<Vec<_>>()));
-    let results = par_map(&jobs, ctx.threads(), |_, (si, cuts)| run_with_cuts(&scratch, &schedules[*si], cuts));
+    let results = par_map(&jobs, ctx.threads(), |_, (si, cuts)| run_with_cuts(&scratch, &schedules[*si].0, cuts, schedules[*si].1));
     let mut points_hit: std::collections::BTreeMap<String, u64> = Default::default();
     for ((si, cuts), r) in jobs.iter().zip(results) {
         rep.eval();
@@ -258,7 +272,7 @@ pub fn run(ctx: &Ctx) -> ! {
             rep.add_extra("observation_runs_with_an_entity_certified_twice_after_crash", 1);
         }
         if rep.samples.len() < 4 && r.crashes > 0 && (rep.evaluations % 5 == 0 || rep.samples.is_empty()) {
-            rep.sample(json!({"schedule": schedules[*si], "cuts": cuts, "outcome": r.outcome}));
+            rep.sample(json!({"schedule": schedules[*si].0, "msd_only": schedules[*si].1, "cuts": cuts, "outcome": r.outcome}));
         }
         for v in r.violations {
             rep.push_violation(v);
